@@ -100,22 +100,28 @@ contract(F, "Payload.get", cases=[dict(payload="Payload"), dict(payload="int"), 
                    "int": dict(ensures=["result == payload"]),
                    "optint": dict(ensures=["result == payload"])})
 
-contract(F, "Payload.maybe_box", cases=[dict(value="U"), dict(value="Payload"), dict(value="Fiber"), dict(value="opt[U]")],
-         case_names=["scalar", "box", "fiber", "optscalar"],
-         returns=["Payload", "Payload", "Fiber", "opt[Payload]"], modifies=[],
+contract(F, "Payload.maybe_box", cases=[dict(value="U"), dict(value="Payload"), dict(value="Fiber"), dict(value="opt[U]"),
+                                         dict(value="Payload|Fiber")],
+         case_names=["scalar", "box", "fiber", "optscalar", "either"],
+         returns=["Payload", "Payload", "Fiber", "opt[Payload]", "Payload|Fiber"], modifies=[],
          ensures={"C01": []},
          per_case={"scalar": dict(ensures=["fresh(result)", "result.value == value"]),
                    "box": dict(ensures=["result is value", "value.value == old(value.value)"]),
                    "fiber": dict(ensures=["result is value"]),
+                   "either": dict(ensures=["result is value"]),
                    "optscalar": dict(ensures=["isnone(result) == isnone(value)",
                                               "implies(not isnone(value), fresh(val(result)) and val(result).value == val(value))"])})
 
-contract(F, "Payload.isEmpty", cases=[dict(p="Payload", default="U"), dict(p="Payload")],
-         case_names=["box", "box_default0"],
+contract(F, "Payload.isEmpty",
+         cases=[dict(p="Payload", default="U"), dict(p="Payload"), dict(p="Payload", default="Payload"),
+                dict(p="Payload|Fiber", default="Payload")],
+         case_names=["box", "box_default0", "box_boxdefault", "either"],
          returns="bool", modifies=[],
-         ensures={"C12": []},
+         ensures={"C12 C04 C07": []},
          per_case={"box": dict(ensures=["result == (p.value == default)"]),
-                   "box_default0": dict(ensures=["result == (p.value == 0)"])})
+                   "box_default0": dict(ensures=["result == (p.value == 0)"]),
+                   "box_boxdefault": dict(ensures=["result == (p.value == default.value)"]),
+                   "either": dict(ensures=["result == pempty(p, default)"])})
 
 contract(F, "Payload.is_payload", cases=[dict(payload="Payload|Fiber"), dict(payload="Payload"), dict(payload="Fiber"), dict(payload="U")],
          case_names=["either", "box", "fiber", "scalar"], returns="bool", modifies=[],
